@@ -5,7 +5,8 @@
 // All rewrites are text splices at positions taken from the type-checked AST
 // (comments, //go:embed and build constraints stay where they are):
 //
-//  1. imports of os, sync, time, os/exec, io/ioutil -> sim packages (alias keeps the local name)
+//  1. imports of os, sync, time, os/exec, io/ioutil -> sim packages (alias keeps the local name);
+//     net/http -> simhttp in internal/transport only
 //  2. go statements -> simrt.Go (function value and arguments bound first)
 //  3. range over a map -> range over simrt.MapIter(m, site)
 //  4. inserts into pointer-keyed maps -> key wrapped in simrt.Stamp
@@ -263,6 +264,10 @@ func instrumentPackage(o Options, p *packages.Package, st *Stats, overlay map[st
 		for _, imp := range fc.file.Imports {
 			path := strings.Trim(imp.Path.Value, "`\"")
 			sim, ok := swaps[path]
+			if !ok && path == "net/http" && strings.HasSuffix(p.PkgPath, "/internal/transport") {
+				// internal/transport runs for real over a simulated TLS network
+				sim, ok = "simhttp", true
+			}
 			if !ok {
 				continue
 			}
